@@ -147,6 +147,18 @@ func xzCases(c *hx.Ctx, seed int64) []xzCase {
 		cases = append(cases, xzCase{G: XZCfg{LC: 3, LP: 0, PB: 2, DictCap: 4096, BufSize: 4096, BlockSize: bs, Check: []int{1, 4, 10, -1, 0}[k], Matcher: k % 2},
 			Hist: []string{"W", "W", "C"}, Fixed: [][]byte{data[:n/3], data[n/3:]}, Tag: "manyblocks"})
 	}
+	// (4c) marginally compressible data (uniform over 220..238 symbols: LZMA saves 0-2 %) in chunks
+	// that end at the compressed-size limit: the raw-or-compressed decision at its boundary
+	for k, a := range []int{220, 224, 228, 232, 236, 238} {
+		r2 := rand.New(rand.NewSource(seed + int64(a)))
+		perm := r2.Perm(256)
+		data := make([]byte, 150000)
+		for i := range data {
+			data[i] = byte(perm[r2.Intn(a)])
+		}
+		cases = append(cases, xzCase{G: XZCfg{LC: 3, LP: 0, PB: 2, DictCap: []int{65536, 1 << 20}[k%2], BufSize: 4096, Check: 4, Matcher: 0},
+			Hist: []string{"W", "W", "C"}, Fixed: [][]byte{data[:70001], data[70001:]}, Tag: "marginal"})
+	}
 	// (5) ring-wrap family: small dictionaries and look-ahead buffers, inputs several times
 	// longer than the encoder's ring (dictionary + look-ahead + 1) with matches at every
 	// distance around the wrap point; both match finders; written in odd-sized pieces
